@@ -5,6 +5,7 @@ import (
 	"go/constant"
 	"go/token"
 	"go/types"
+	"strings"
 
 	"golang.org/x/tools/go/packages"
 	"golang.org/x/tools/go/ssa"
@@ -125,6 +126,16 @@ func fieldOfSel(p *packages.Package, e ast.Expr) *types.Var {
 }
 
 func paramObj(p *packages.Package, fd *ast.FuncDecl, i int) types.Object {
+	// the rules count parameters as the recorded tree had them (anchors.go)
+	switch how := convertedDecl[fd.Name.Pos()]; {
+	case strings.HasPrefix(how, "method:"): // not "method-dropped-receiver:", where the list is unchanged
+		i++ // a method then: its receiver is parameter 0 now
+	case how == "func":
+		if i == 0 && fd.Recv != nil && len(fd.Recv.List) == 1 && len(fd.Recv.List[0].Names) == 1 {
+			return p.TypesInfo.Defs[fd.Recv.List[0].Names[0]]
+		}
+		i--
+	}
 	k := 0
 	for _, f := range fd.Type.Params.List {
 		for _, n := range f.Names {
